@@ -26,9 +26,12 @@ def cases(tier, seed):
     step = 3 if tier == 'quick' else 1
     for mod, fam in ((c01, 'c01'), (c02, 'c02'), (c03, 'c03'), (c04, 'c04')):
         cs = [c for c in mod.cases(tier, seed) if 'clauses' in c and c.get('fam') != 'text']
+        import hashlib
         for i, c in enumerate(cs):
-            if i % step == (seed % step):
-                c = dict(c); c['src'] = fam; c['solve'] = (i % (step * 7) == (seed % step)); out.append(c)
+            # a seeded, structure-independent third of each family (every program in the thorough tier)
+            h = int(hashlib.sha1(('%s|%s|%d' % (fam, c['id'].split('|')[0], seed)).encode()).hexdigest()[:8], 16)
+            if h % step == 0:
+                c = dict(c); c['src'] = fam; c['solve'] = (h // step) % 7 == 0; out.append(c)
     return out
 
 
